@@ -213,6 +213,27 @@ def _all_subs(c):
     return out
 
 
+def _tb_functions(e):
+    import traceback
+
+    return [fr.name for fr in traceback.extract_tb(e.__traceback__)]
+
+
+def _raise_site(e):
+    names = _tb_functions(e)
+    return names[-1] if names else "?"
+
+
+def _has_nonterminal_measurement(c):
+    ops_ = [(i, op) for i, m in enumerate(c) for op in m]
+    for k, (i, op) in enumerate(ops_):
+        if cirq.is_measurement(op):
+            qs = set(op.qubits)
+            if any(j > i and qs & set(other.qubits) for j, other in ops_[k + 1:]):
+                return True
+    return False
+
+
 def _short(op):
     s = repr(op)
     return s if len(s) < 160 else s[:157] + "..."
@@ -332,7 +353,7 @@ def oracle_measurement_passes(r):
         try:
             out = cirq.defer_measurements(given, **_ctx_of(o, False))
         except ValueError as e:
-            raise Reject("defer_measurements: ValueError " + str(e)[:40])
+            raise Reject("defer_measurements: ValueError raised in " + _raise_site(e))
         unchanged()
         try:
             sorted(out.all_qubits())  # what QubitOrder.DEFAULT / every simulator does with the result
@@ -350,13 +371,15 @@ def oracle_measurement_passes(r):
         lab["ancillas"] = min(len(extra), 4)
         changed = H.moments_of(out) != H.moments_of(pristine)
     elif name == "dephase_measurements":
-        has_cc = any(cirq.control_keys(op) for op in pristine.all_operations())
+        # documented: ValueError iff the circuit contains classical controls.  Decided from the recipe (the builder counts the
+        # classically controlled operations it really emitted, at any depth), never from the wording of the message.
+        has_cc = b.stats["cc_bound"] > 0
         try:
             out = cirq.dephase_measurements(given, **_ctx_of(o, True))
-        except ValueError as e:
-            if "defer_measurements first" in str(e):
-                raise Reject("dephase_measurements: documented ValueError (classical control)")
-            raise
+        except ValueError:
+            if has_cc:
+                raise Reject("dephase_measurements: documented ValueError (input has classical control)")
+            raise  # in-domain input: stays a crash violation
         unchanged()
         if has_cc:
             raise Reject("dephase_measurements: classical control passed through (tagged / nested without deep)")
@@ -371,12 +394,16 @@ def oracle_measurement_passes(r):
             raise Violation(f"dephase_measurements: {len(left)} measurement(s) left in the output with deep=True")
         changed = H.moments_of(out) != H.moments_of(pristine)
     elif name == "drop_terminal_measurements":
+        # documented: ValueError iff a non-terminal measurement exists or deep=False.  "Non-terminal" is read off the circuit
+        # the recipe builds: a top-level operation that measures (itself or inside its sub-circuit) with a later top-level
+        # operation on one of its qubits.
+        deep_false = bool(o.get("ctx")) and not o.get("deep", True)
         try:
             out = cirq.drop_terminal_measurements(given, **_ctx_of(o, True))
-        except ValueError as e:
-            if "non-terminal measurement" in str(e) or "`deep=True` is required" in str(e):
-                raise Reject("drop_terminal_measurements: documented ValueError")
-            raise
+        except ValueError:
+            if deep_false or _has_nonterminal_measurement(pristine):
+                raise Reject("drop_terminal_measurements: documented ValueError (non-terminal measurement or deep=False)")
+            raise  # in-domain input: stays a crash violation
         unchanged()
         if o.get("ctx") and not o.get("deep", True):
             raise Violation("drop_terminal_measurements: deep=False accepted although documented to raise")
@@ -586,7 +613,9 @@ def oracle_sweeps(r):
         try:
             out, new_sweep = cirq.merge_single_qubit_gates_to_phxz_symbolized(given, context=context, sweep=sweep, **kw)
         except ValueError as e:
-            if "Expect a PhasedXZGate or IdentityGate" in str(e):
+            # documented on _calc_phxz_sweeps ("Raises: ValueError: Structural mismatch"); whether the resolved circuits merge to
+            # different shapes cannot be read off the recipe, so the raise site is identified by function, not by message text
+            if "_calc_phxz_sweeps" in _tb_functions(e):
                 raise Reject("phxz_symbolized: documented ValueError (structural mismatch between resolved circuits)")
             raise
         if H.moments_of(given) != H.moments_of(pristine):
